@@ -12,7 +12,8 @@ RULE = ("documents of 0..200 entries (1..3 accessions, 0..2 names, sequence text
         "capacity/source setting per offset in rotation; thorough: 4 documents x 5 settings), truncation at EVERY byte "
         "offset of the GZIP stream of small documents for Parse-on-gzip and uniprot.Read (quick: the documents with 0, 1 "
         "and 2 entries; thorough: all four), random truncation of larger ones, overwriting one byte with 0x01 / a "
-        "lone byte >= 0x80 (invalid UTF-8, applied by the harness) / '<' in leaf text / a letter of an end-tag name, a "
+        "lone byte >= 0x80 (invalid UTF-8, applied by the harness) / '<' or a bare '&' in leaf text / a letter of an end-tag name / "
+        "the opening quote of an attribute value / a letter or the ';' of an entity, a "
         "schema-invalid attribute value, gzip stream truncated or one byte flipped at random. "
         "non-trivial = at least one entry; distinct by case text")
 EXHAUSTIVE = {"quick": True, "thorough": True}
@@ -100,7 +101,8 @@ def entry_text(e):
     return t
 
 def filler_text(f):
-    return {0: "\n", 1: "\n<copyright>Copyrighted by the UniProt Consortium</copyright>\n", 2: "\n<!-- between entries -->\n"}.get(f, "")
+    return {0: "\n", 1: "\n<copyright>Copyrighted by the UniProt Consortium</copyright>\n", 2: "\n<!-- between entries -->\n",
+            4: "\n<copyright>Copyrighted by the UniProt Consortium &amp; others</copyright>\n"}.get(f, "")
 
 def render(prolog, entries, tnl):
     t = prolog_text(prolog) + ROOT_OPEN
@@ -128,7 +130,7 @@ def entry(r, big=False, valid=True):
     k = r.choice([0, 1, 5, 30, 30, 200]) if not big else r.randint(200, 2000)
     sq = "".join(r.choices(AMINO, k=k))
     attrs = r.choice([0, 1, 1]) if valid else 2
-    return (accs, names, sq, attrs, r.random() < 0.3, r.choice([0, 0, 1, 2, 3]))
+    return (accs, names, sq, attrs, r.random() < 0.3, r.choice([0, 0, 1, 2, 3, 4]))
 
 def case(r, cons, ent_cap, err_cap, src, damage, prolog, tnl, entries, pylen=True, deadline=None, stall=None):
     text, _, _, _ = render(prolog, entries, tnl)
@@ -243,6 +245,32 @@ def cases(seed, tier):
             src = r.choice(["gz", "read"])
             dmg = "gzflip:%d" % r.randint(0, 999)
         yield case(r, cons, ec, qc, src, dmg, prolog, tnl, entries)
+    # ---- damage that only a STRICT decoder reports: a bare '&' in text, an attribute value that lost its opening
+    # ---- quote, the entity &amp; with a damaged name or without its ';' (a lenient decoder reads all of these to
+    # ---- the end without any error)
+    for i in range(40 if quick else 600):
+        k = r.randint(1, 8)
+        entries = [entry(r) for _ in range(k)]
+        if i % 2 == 0:
+            j = r.randrange(k)
+            e = entries[j]
+            entries[j] = (e[0], e[1], e[2], 1, e[4], 4)          # attributes and an entity for the damage to hit
+        prolog, tnl = r.choice([0, 1, 2]), r.random() < 0.7
+        text, root_start, root_end, ends = render(prolog, entries, tnl)
+        kind = i % 3
+        if kind == 0:
+            import re
+            cand = [p for m in re.finditer(r">([A-Za-z0-9_]+)<", text) for p in range(m.start(1), m.end(1)) if p >= root_start]
+            dmg = "set:%d:38" % r.choice(cand) if cand else "none"
+        elif kind == 1:
+            cand = [p for p in range(root_start + 1, root_end) if text[p] == '"' and text[p - 1] == "="]
+            dmg = "set:%d:%d" % (r.choice(cand), ord("q"))
+        else:
+            cand = [p + d for p in range(root_start, root_end) if text[p:p + 5] == "&amp;" for d in (1, 2, 3, 4)]
+            dmg = "set:%d:%d" % (r.choice(cand), ord("x")) if cand else "none"
+        cons = r.choice(["seq", "conc"])
+        ec, qc = caps(r, k)
+        yield case(r, cons, ec, qc, r.choice(["plain", "plain", "gz", "read"]), dmg, prolog, tnl, entries)
     # ---- documented consumer, error channel of capacity 0 and 1, every kind of damage position
     prolog, tnl, entries = SMALL[0]
     for (ec, qc) in [(0, 0), (5, 0), (5, 1), (0, 1)]:
